@@ -800,6 +800,13 @@ func (c *compiler) compileVarBinding(expr *ast.Binding) {
 
 func (c *compiler) emitLexicalAssign(name unistring.String, offset int, init compiledExpr) {
 	b := c.scope.boundNames[name]
+	if b == nil {
+		// unreachable code after a break / continue is compiled in a scratch scope (see enterDummyMode): the binding
+		// was created in the enclosing block scope
+		for s := c.scope.outer; s != nil && b == nil; s = s.outer {
+			b = s.boundNames[name]
+		}
+	}
 	c.assert(b != nil, offset, "Lexical declaration for an unbound name")
 	if init != nil {
 		c.emitNamedOrConst(init, name)
